@@ -69,4 +69,18 @@ HookMustIdle(h, c)   == HookBreakerReq(h, c) \/ HookPriceReq(h, c)
 (* as coded: the sweeps also idle once shutdown is executed, except the V2 borrow sweep and the V2 surplus/debt starter *)
 ImplHookIdle(h, c) == c.breaker \/ (HookNeedsPrice(h) /\ c.off # {}) \/ (c.esm # "off" /\ h \in {"liqV2.sweepVault", "liqV1.sweepVault", "aucV1.surplus", "aucV1.debt",
                                                              "liqV2.msgInternalVault", "liqV1.msgVault"})
+
+(* ---------------------------------------------------------------------------------------------- *)
+(* Per-block steps on LIVE Dutch auctions (one atomic unit per auction): price update while the auction runs, restart   *)
+(* when it has expired. "Whenever the oracle price needed by an operation is missing or inactive, that operation fails  *)
+(* without any state change": with a needed price off the auction's record must be exactly as before the block.         *)
+(* Roles: "in" = collateral being sold, "out" = debt asset being collected.                                             *)
+AuctionSteps == {"aucV1.dutchTick", "aucV1.dutchRestart", "aucV1.lendTick", "aucV1.lendRestart", "aucV2.tick", "aucV2.restart"}
+AucApp(h) == IF h \in {"aucV1.lendTick", "aucV1.lendRestart"} THEN "commodo" ELSE "harbor"
+(* the V1 update decays the auction price with time only and records the debt asset's oracle price; a restart re-bases  *)
+(* the price curve on the collateral's oracle price; the V2 step records both oracle prices on every update             *)
+AucNeeds(h) == IF h \in {"aucV1.dutchTick", "aucV1.lendTick"} THEN {"out"} ELSE IO
+AucPriceReq(h, off) == AucNeeds(h) \cap off # {}
+(* as coded: the unit returns an error (and is rolled back) exactly when a needed price is off *)
+ImplAucFrozen(h, off) == AucNeeds(h) \cap off # {}
 =============================================================================
